@@ -59,6 +59,10 @@ static inline void recp(int t, uint64_t v) { if (npushed[t] < VF_MAXR) pv[t][npu
 #define POPN(n) do { P2 tmp[n]; for (int i = 0; i < n; ++i) tmp[i] = P2{0, 0}; q->pop_n<VF_C, VF_CFW, VF_CFK>(tmp, tmp + n); for (int i = 0; i < n; ++i) rec(T, tmp[i]); } while (0)
 #define TRYPOPN(n) do { q->try_pop_n<VF_C, VF_CFK>([&](It b, It e) { for (; b != e; ++b) rec(T, *b); }, n); } while (0)
 #define TRYPUSHN(k0, n) do { int kk = k0; q->try_push_n<VF_C, VF_PFK>([&](It b, It e) { for (; b != e; ++b) { *b = mk(VAL(T, kk)); recp(T, VAL(T, kk)); ++kk; } }, n); } while (0)
+// single-producer (CONCURRENT=false) batch try_push, and a pop whose callback is parked until flag i is raised (a consumer
+// still inside its pop on one slot while others complete later tickets: consumers finishing out of ticket order)
+#define TRYPUSHN_NC(k0, n) do { int kk = k0; q->try_push_n<false, VF_PFK>([&](It b, It e) { for (; b != e; ++b) { *b = mk(VAL(T, kk)); recp(T, VAL(T, kk)); ++kk; } }, n); } while (0)
+#define POPCB_AWAIT(i) do { q->pop<VF_C, VF_CFW, VF_CFK>([&](P2& s) { rec(T, s); AWAIT(i); s.a = 0; s.b = 0; }); } while (0)
 // release/acquire hand-over between harness threads (the acquire side only explores executions where it saw the flag)
 #define SIGNAL(i) __atomic_store_n(&flag[i], 1, __ATOMIC_RELEASE)
 #define AWAIT(i) vf_assume(__atomic_load_n(&flag[i], __ATOMIC_ACQUIRE) == 1)
